@@ -46,6 +46,37 @@ impl Default for Mark {
     }
 }
 
+thread_local! {
+    /// out-of-band "key table": Keyed elements wipe the slot they name
+    static TABLE: RefCell<Vec<u8>> = const { RefCell::new(Vec::new()) };
+    static ZST_CALLS: core::cell::Cell<u64> = const { core::cell::Cell::new(0) };
+}
+
+/// Handle into the key table: its Zeroize must read its own prior contents to know what to wipe.
+#[derive(PartialEq, Debug)]
+pub struct Keyed {
+    slot: usize,
+}
+impl Zeroize for Keyed {
+    fn zeroize(&mut self) {
+        TABLE.with(|t| {
+            if let Some(x) = t.borrow_mut().get_mut(self.slot) {
+                *x = 0;
+            }
+        });
+        self.slot = usize::MAX;
+    }
+}
+
+/// Zero-sized token for an out-of-band register: zeroize has a side effect only.
+#[derive(PartialEq, Debug)]
+pub struct ZReg;
+impl Zeroize for ZReg {
+    fn zeroize(&mut self) {
+        ZST_CALLS.with(|c| c.set(c.get() + 1));
+    }
+}
+
 trait Z: Zeroize + Sized + PartialEq + core::fmt::Debug + 'static {
     const NAME: &'static str;
     fn random(r: &mut Rng) -> Self;
@@ -156,6 +187,46 @@ fn zero_case<E: Z, N: generic_array::ArrayLength>(st: &mut Stats, seed: u64) {
     });
 }
 
+fn stateful_cases<N: generic_array::ArrayLength>(st: &mut Stats) {
+    let n = N::USIZE;
+    st.check_case("C19", "zeroize", "Keyed(reads prior state)", || format!("C19 zeroize Keyed N={n}"), n > 0, || {
+        // slot 0 is a decoy that must stay untouched; element i names slot i + 1
+        TABLE.with(|t| *t.borrow_mut() = vec![0xEE; n + 1]);
+        let mut a: GA<Keyed, N> = GA::<Keyed, N>::generate(|i| Keyed { slot: i + 1 });
+        a.zeroize();
+        let table = TABLE.with(|t| t.borrow().clone());
+        if table[0] != 0xEE {
+            return Err("NotZeroized: a Zeroize impl was run on wiped contents (the decoy slot 0 was cleared)".into());
+        }
+        for i in 0..n {
+            if table[i + 1] != 0 {
+                return Err(format!("NotZeroized: key slot {} still holds key material: element {i}'s Zeroize did not see its own contents", i + 1));
+            }
+            if a[i].slot != usize::MAX {
+                return Err(format!("NotZeroized: element {i} is not in its zeroized state"));
+            }
+        }
+        Ok(())
+    });
+    st.check_case("C19", "zeroize", "ZReg(zero-sized)", || format!("C19 zeroize ZReg N={n}"), n > 0, || {
+        let mut a: GA<ZReg, N> = GA::<ZReg, N>::generate(|_| ZReg);
+        ZST_CALLS.with(|c| c.set(0));
+        a.zeroize();
+        let calls = ZST_CALLS.with(|c| c.get());
+        if calls != n as u64 {
+            return Err(format!("VisitCount: Zeroize ran {calls} times on {n} zero-sized elements"));
+        }
+        let mut nested: GA<GA<ZReg, U3>, N> = GA::<GA<ZReg, U3>, N>::generate(|_| GA::<ZReg, U3>::generate(|_| ZReg));
+        ZST_CALLS.with(|c| c.set(0));
+        nested.zeroize();
+        let calls = ZST_CALLS.with(|c| c.get());
+        if calls != 3 * n as u64 {
+            return Err(format!("VisitCount: Zeroize ran {calls} times on {} nested zero-sized elements", 3 * n));
+        }
+        Ok(())
+    });
+}
+
 fn default_case<E, N>(st: &mut Stats, name: &'static str, konst: &GA<E, N>)
 where
     E: ConstDefault + Default + PartialEq + core::fmt::Debug + 'static,
@@ -202,6 +273,7 @@ macro_rules! impl_zclen {
                     zero_case::<NonZeroU32, N>(st, args.seed);
                     zero_case::<GA<u8, U3>, N>(st, args.seed);
                     zero_case::<GA<Mark, U2>, N>(st, args.seed);
+                    stateful_cases::<N>(st);
                 }
                 if args.part_on("default") {
                     const C_MARK: GA<Mark, N> = GenericArray::const_default();
